@@ -501,22 +501,6 @@ Proof.
     + intros [<-|H]; [left; left; reflexivity|]. destruct (IH H) as [H1|H1]; [left; right; exact H1|right; exact H1].
 Qed.
 
-Definition acc_good (acc : list (string * string)) : Prop := forall p, In p acc -> ref_env_key (snd p) = fst p.
-
-Lemma acc_good_upsert n v acc : count_char "="%char n = 0 -> acc_good acc -> acc_good (env_upsert n (n ++ "=" ++ v)%string acc).
-Proof.
-  intros Hn Hg p Hp. destruct (env_upsert_In _ _ _ _ Hp) as [H| ->]; [apply Hg; exact H|].
-  cbn [fst snd]. apply ref_env_key_oci. exact Hn.
-Qed.
-
-Lemma kfind_acc_good k acc : acc_good acc -> kfind ref_env_key k (map snd acc) = alookup k acc.
-Proof.
-  induction acc as [|[n e] r IH]; intros Hg; cbn [map kfind alookup snd]; [reflexivity|].
-  pose proof (Hg (n, e) (or_introl eq_refl)) as Hne. cbn [fst snd] in Hne. rewrite Hne.
-  destruct (String.eqb k n); [reflexivity|].
-  apply IH. intros p Hp. apply Hg. right. exact Hp.
-Qed.
-
 (* --- mod[key] = e --- *)
 Definition emstep (e : string * string) (m : list (string * (string * string))) :=
   if marked (fst e) && match alookup (rawkey (fst e)) m with Some old => negb (marked (fst old)) | None => false end
@@ -641,28 +625,28 @@ Proof.
 Qed.
 
 (* --- the pass over the existing environment --- *)
+(* W3: every existing entry ("key=value", or a bare "key" without '=') has a non-empty key, the keys are distinct *)
 Definition env_W3 (old : list string) : Prop :=
-  (forall s, In s old -> exists k v, cut "="%char s = (k, Some v) /\ k <> "") /\ NoDup (map ref_env_key old).
+  (forall s, In s old -> ref_env_key s <> "") /\ NoDup (map ref_env_key old).
+
+Lemma env_upsert_app n e acc : ~ In n (map fst acc) -> env_upsert n e acc = acc ++ [(n, e)].
+Proof.
+  induction acc as [|[k2 e2] r IH]; cbn [env_upsert map fst app]; intros Hni; [reflexivity|].
+  destruct (String.eqb_spec n k2) as [->|Hne]; [exfalso; apply Hni; left; reflexivity|].
+  f_equal. apply IH. intros H. apply Hni. right. exact H.
+Qed.
+
+Lemma add_env_eq n v acc : n <> "" -> add_process_env n v acc = env_upsert n (n ++ "=" ++ v)%string acc.
+Proof. intros Hn. unfold add_process_env. destruct (String.eqb_spec n ""); [contradiction|reflexivity]. Qed.
 
 Definition rb_m (k0 : string) (m : list (string * (string * string))) :=
   match alookup k0 m with Some _ => aremove k0 m | None => m end.
-Definition rb_acc (k0 v0 : string) (m : list (string * (string * string))) (acc : list (string * string)) :=
-  match alookup k0 m with
-  | Some x => if marked (fst x) then acc else env_upsert k0 (k0 ++ "=" ++ snd x)%string acc
-  | None => env_upsert k0 (k0 ++ "=" ++ v0)%string acc
+(* what one existing entry becomes: (name in the key cache, entry) *)
+Definition rb_entry (m : list (string * (string * string))) (s : string) : list (string * string) :=
+  match alookup (ref_env_key s) m with
+  | Some x => if marked (fst x) then [] else [(ref_env_key s, (ref_env_key s ++ "=" ++ snd x)%string)]
+  | None => match snd (cut "="%char s) with Some _ => [(ref_env_key s, s)] | None => [("", s)] end
   end.
-
-Lemma env_rebuild_cons s r m acc k0 v0 :
-  cut "="%char s = (k0, Some v0) -> k0 <> "" -> m_ok m ->
-  env_rebuild (s :: r) m acc = env_rebuild r (rb_m k0 m) (rb_acc k0 v0 m acc).
-Proof.
-  intros Hc Hk Hok. cbn [env_rebuild]. rewrite Hc. unfold rb_m, rb_acc, add_process_env.
-  destruct (alookup k0 m) as [x|] eqn:Hl.
-  - destruct (marked (fst x)) eqn:Hm; [reflexivity|].
-    pose proof (Hok k0 x Hl) as Hr. rewrite (rawkey_unmarked _ Hm) in Hr. rewrite Hr.
-    destruct (String.eqb_spec k0 ""); [contradiction|reflexivity].
-  - destruct (String.eqb_spec k0 ""); [contradiction|reflexivity].
-Qed.
 
 Lemma rb_m_lookup k0 m k : alookup k (rb_m k0 m) = if String.eqb k k0 then None else alookup k m.
 Proof.
@@ -676,75 +660,77 @@ Proof.
   intros Hok k x. rewrite rb_m_lookup. destruct (String.eqb k k0); [discriminate|apply Hok].
 Qed.
 
-Lemma rb_acc_lookup k0 v0 m acc k :
-  alookup k (rb_acc k0 v0 m acc) =
-  if String.eqb k k0
-  then match alookup k0 m with
-       | Some x => if marked (fst x) then alookup k0 acc else Some (k0 ++ "=" ++ snd x)%string
-       | None => Some (k0 ++ "=" ++ v0)%string
-       end
-  else alookup k acc.
+Lemma env_rebuild_cons s r m acc :
+  ref_env_key s <> "" -> m_ok m -> ~ In (ref_env_key s) (map fst acc) ->
+  env_rebuild (s :: r) m acc = env_rebuild r (rb_m (ref_env_key s) m) (acc ++ rb_entry m s).
 Proof.
-  unfold rb_acc. destruct (alookup k0 m) as [x|].
-  - destruct (marked (fst x)).
-    + destruct (String.eqb_spec k k0) as [->|]; reflexivity.
-    + rewrite alookup_env_upsert. destruct (String.eqb k k0); reflexivity.
-  - rewrite alookup_env_upsert. destruct (String.eqb k k0); reflexivity.
+  intros Hk Hok Hni. cbn [env_rebuild]. unfold rb_m, rb_entry, ref_env_key in *.
+  destruct (cut "="%char s) as [k ov] eqn:Hc. cbn [fst snd] in *.
+  destruct (alookup k m) as [x|] eqn:Hl.
+  - destruct (marked (fst x)) eqn:Hm; [rewrite app_nil_r; reflexivity|].
+    pose proof (Hok k x Hl) as Hr. rewrite (rawkey_unmarked _ Hm) in Hr. rewrite Hr.
+    rewrite add_env_eq, env_upsert_app by assumption. reflexivity.
+  - destruct ov as [v|]; [|reflexivity].
+    destruct (cut_some s k v Hc) as [Hs _]. rewrite add_env_eq, env_upsert_app by assumption. rewrite <- Hs. reflexivity.
 Qed.
 
-Lemma rb_acc_good k0 v0 m acc : count_char "="%char k0 = 0 -> acc_good acc -> acc_good (rb_acc k0 v0 m acc).
+Lemma rb_entry_names m s n : In n (map fst (rb_entry m s)) -> n = "" \/ n = ref_env_key s.
 Proof.
-  intros Hk Hg. unfold rb_acc. destruct (alookup k0 m) as [x|]; [destruct (marked (fst x)); [exact Hg|]|];
-    apply acc_good_upsert; assumption.
+  unfold rb_entry. destruct (alookup (ref_env_key s) m) as [x|].
+  - destruct (marked (fst x)); cbn [map fst In]; [tauto|]. intros [<-|[]]. right. reflexivity.
+  - destruct (snd (cut "="%char s)); cbn [map fst In]; intros [<-|[]]; [right|left]; reflexivity.
 Qed.
 
-Lemma env_W3_cons s r : env_W3 (s :: r) ->
-  exists k0 v0, cut "="%char s = (k0, Some v0) /\ k0 <> "" /\ ref_env_key s = k0 /\ s = (k0 ++ "=" ++ v0)%string /\
-                count_char "="%char k0 = 0 /\ ~ In k0 (map ref_env_key r) /\ env_W3 r.
+Lemma rb_entry_other m k0 s : ref_env_key s <> k0 -> rb_entry (rb_m k0 m) s = rb_entry m s.
+Proof. intros Hne. unfold rb_entry. rewrite rb_m_lookup. destruct (String.eqb_spec (ref_env_key s) k0); [contradiction|reflexivity]. Qed.
+
+Lemma flat_map_ext_In {A B} (f g : A -> list B) l : (forall x, In x l -> f x = g x) -> flat_map f l = flat_map g l.
 Proof.
-  intros [Hf Hnd]. destruct (Hf s (or_introl eq_refl)) as [k0 [v0 [Hc Hk]]]. exists k0, v0.
-  destruct (cut_some s k0 v0 Hc) as [Hs Hcnt].
-  assert (Hkey : ref_env_key s = k0) by (unfold ref_env_key; rewrite Hc; reflexivity).
-  cbn [map] in Hnd. inversion Hnd as [|? ? Hx Hr]; subst x l. rewrite Hkey in Hx.
-  repeat split; try assumption. intros s' Hs'. apply Hf. right. exact Hs'.
+  induction l as [|x r IH]; intros H; cbn [flat_map]; [reflexivity|].
+  rewrite (H x (or_introl eq_refl)), IH; [reflexivity|]. intros y Hy. apply H. right. exact Hy.
 Qed.
 
-Lemma rebuild_m old : forall m acc, m_ok m -> env_W3 old -> forall k,
+Lemma env_W3_cons s r : env_W3 (s :: r) -> ref_env_key s <> "" /\ ~ In (ref_env_key s) (map ref_env_key r) /\ env_W3 r.
+Proof.
+  intros [Hf Hnd]. cbn [map] in Hnd. inversion Hnd as [|? ? Hx Hr]; subst.
+  split; [apply Hf; left; reflexivity|]. split; [exact Hx|]. split; [|exact Hr]. intros s' Hs'. apply Hf. right. exact Hs'.
+Qed.
+
+(* the rebuilt environment: every upsert is an append, because the keys are distinct *)
+Lemma rebuild_fst old : forall m acc, m_ok m -> env_W3 old ->
+  (forall s, In s old -> ~ In (ref_env_key s) (map fst acc)) ->
+  fst (env_rebuild old m acc) = acc ++ flat_map (rb_entry m) old.
+Proof.
+  induction old as [|s r IH]; intros m acc Hok HW Hacc; [cbn; rewrite app_nil_r; reflexivity|].
+  destruct (env_W3_cons s r HW) as [Hk [Hni HWr]].
+  rewrite (env_rebuild_cons s r m acc Hk Hok (Hacc s (or_introl eq_refl))).
+  rewrite IH; [|apply rb_m_ok; exact Hok|exact HWr|].
+  - cbn [flat_map]. rewrite <- app_assoc. f_equal. f_equal. apply flat_map_ext_In. intros s' Hs'.
+    apply rb_entry_other. intros E. apply Hni. rewrite <- E. apply in_map. exact Hs'.
+  - intros s' Hs'. rewrite map_app. intros Hin. apply in_app_or in Hin. destruct Hin as [Hin|Hin].
+    + exact (Hacc s' (or_intror Hs') Hin).
+    + destruct (rb_entry_names m s _ Hin) as [E|E].
+      * destruct HWr as [Hf _]. exact (Hf s' Hs' E).
+      * apply Hni. rewrite <- E. apply in_map. exact Hs'.
+Qed.
+
+(* what is left of mod does not depend on the rebuilt environment *)
+Lemma rebuild_snd old : forall m acc,
+  snd (env_rebuild old m acc) = fold_left (fun m s => rb_m (ref_env_key s) m) old m.
+Proof.
+  induction old as [|s r IH]; intros m acc; [reflexivity|].
+  cbn [env_rebuild fold_left]. destruct (cut "="%char s) as [k ov] eqn:Hc.
+  assert (Hk : ref_env_key s = k) by (unfold ref_env_key; rewrite Hc; reflexivity). rewrite Hk.
+  replace (rb_m k m) with (match alookup k m with Some _ => aremove k m | None => m end) by reflexivity.
+  destruct (alookup k m) as [x|]; [destruct (marked (fst x))|destruct ov]; apply IH.
+Qed.
+
+Lemma rebuild_m old : forall m acc k,
   alookup k (snd (env_rebuild old m acc)) = if smem k (map ref_env_key old) then None else alookup k m.
 Proof.
-  induction old as [|s r IH]; intros m acc Hok HW k; [reflexivity|].
-  destruct (env_W3_cons s r HW) as [k0 [v0 [Hc [Hk [Hkey [Hs [Hcnt [Hni HWr]]]]]]]].
-  rewrite (env_rebuild_cons s r m acc k0 v0 Hc Hk Hok). rewrite IH by (try apply rb_m_ok; assumption).
-  cbn [map]. rewrite smem_cons, Hkey, rb_m_lookup.
-  destruct (String.eqb k k0); cbn [orb]; [|reflexivity]. destruct (smem k _); reflexivity.
-Qed.
-
-Lemma rebuild_acc old : forall m acc, m_ok m -> env_W3 old -> forall k,
-  alookup k (fst (env_rebuild old m acc)) =
-  match kfind ref_env_key k old with
-  | None => alookup k acc
-  | Some s => match alookup k m with
-              | Some x => if marked (fst x) then alookup k acc else Some (k ++ "=" ++ snd x)%string
-              | None => Some s
-              end
-  end.
-Proof.
-  induction old as [|s r IH]; intros m acc Hok HW k; [reflexivity|].
-  destruct (env_W3_cons s r HW) as [k0 [v0 [Hc [Hk [Hkey [Hs [Hcnt [Hni HWr]]]]]]]].
-  rewrite (env_rebuild_cons s r m acc k0 v0 Hc Hk Hok). rewrite IH by (try apply rb_m_ok; assumption).
-  cbn [kfind]. rewrite Hkey, rb_m_lookup, rb_acc_lookup.
-  destruct (String.eqb_spec k k0) as [->|Hne].
-  - assert (Hn : kfind ref_env_key k0 r = None) by (apply kfind_None_notin; exact Hni).
-    rewrite Hn, <- Hs. reflexivity.
-  - reflexivity.
-Qed.
-
-Lemma rebuild_good old : forall m acc, m_ok m -> env_W3 old -> acc_good acc -> acc_good (fst (env_rebuild old m acc)).
-Proof.
-  induction old as [|s r IH]; intros m acc Hok HW Hg; [exact Hg|].
-  destruct (env_W3_cons s r HW) as [k0 [v0 [Hc [Hk [Hkey [Hs [Hcnt [Hni HWr]]]]]]]].
-  rewrite (env_rebuild_cons s r m acc k0 v0 Hc Hk Hok). apply IH; [apply rb_m_ok; exact Hok|exact HWr|].
-  apply rb_acc_good; assumption.
+  intros m acc k. rewrite rebuild_snd. revert m. induction old as [|s r IH]; intros m; [reflexivity|].
+  cbn [fold_left map]. rewrite IH, smem_cons, rb_m_lookup.
+  destruct (String.eqb k (ref_env_key s)); cbn [orb]; [|reflexivity]. destruct (smem k _); reflexivity.
 Qed.
 
 (* --- the pass appending the new variables --- *)
@@ -768,39 +754,33 @@ Proof.
   - intros n Hn. apply H. rewrite r_mods_cons. destruct (marked (fst e)); [exact Hn|right; exact Hn].
 Qed.
 
-Lemma add_env_eq n v acc : n <> "" -> add_process_env n v acc = env_upsert n (n ++ "=" ++ v)%string acc.
-Proof. intros Hn. unfold add_process_env. destruct (String.eqb_spec n ""); [contradiction|reflexivity]. Qed.
-
-Lemma third_lookup m' es : forall acc, NoDup (r_mods fst es) -> names_ok es -> forall k,
-  alookup k (env_third m' es acc) =
-  match kfind fst k (r_adds fst es) with
-  | Some e => match alookup k m' with Some _ => Some (k ++ "=" ++ snd e)%string | None => alookup k acc end
-  | None => alookup k acc
-  end.
+Lemma In_r_mods {E} (key : E -> string) e es : In e es -> marked (key e) = false -> In (key e) (r_mods key es).
 Proof.
-  unfold env_third. induction es as [|e r IH]; intros acc Hnd Hn k; [reflexivity|].
-  cbn [fold_left]. rewrite r_mods_cons in Hnd. destruct (names_ok_cons e r Hn) as [Hne Hnr].
-  unfold r_adds. cbn [filter]. fold (r_adds fst r). destruct (marked (fst e)) eqn:Hm; cbn [negb].
-  - apply IH; assumption.
-  - inversion Hnd as [|? ? Hx Hr]; subst. destruct (Hne eq_refl) as [Hne1 Hne2].
-    rewrite IH by assumption. cbn [kfind].
-    destruct (String.eqb_spec k (fst e)) as [->|Hk].
-    + assert (Hnone : kfind fst (fst e) (r_adds fst r) = None) by (apply kfind_None_notin; exact Hx).
-      rewrite Hnone. destruct (alookup (fst e) m'); [|reflexivity].
-      rewrite add_env_eq by exact Hne1. rewrite alookup_env_upsert, String.eqb_refl. reflexivity.
-    + assert (Hsame : alookup k (match alookup (fst e) m' with
-                                  | Some _ => add_process_env (fst e) (snd e) acc | None => acc end) = alookup k acc).
-      { destruct (alookup (fst e) m'); [|reflexivity]. rewrite add_env_eq by exact Hne1.
-        rewrite alookup_env_upsert. destruct (String.eqb_spec k (fst e)); [contradiction|reflexivity]. }
-      rewrite Hsame. reflexivity.
+  intros Hin Hm. unfold r_mods. apply in_map. unfold r_adds. apply filter_In. split; [exact Hin|rewrite Hm; reflexivity].
 Qed.
 
-Lemma third_good m' es : forall acc, names_ok es -> acc_good acc -> acc_good (env_third m' es acc).
+Definition third_new (m' : list (string * (string * string))) (e : string * string) : bool :=
+  negb (marked (fst e)) && match alookup (fst e) m' with Some _ => true | None => false end.
+
+Lemma third_app m' es : forall acc, NoDup (r_mods fst es) -> names_ok es ->
+  (forall e, In e es -> third_new m' e = true -> ~ In (fst e) (map fst acc)) ->
+  env_third m' es acc = acc ++ map (fun e => (fst e, ref_env_oci e)) (filter (third_new m') es).
 Proof.
-  unfold env_third. induction es as [|e r IH]; intros acc Hn Hg; [exact Hg|].
-  cbn [fold_left]. destruct (names_ok_cons e r Hn) as [Hne Hnr]. apply IH; [exact Hnr|].
-  destruct (marked (fst e)) eqn:Hm; [exact Hg|]. destruct (alookup (fst e) m'); [|exact Hg].
-  destruct (Hne eq_refl) as [Hne1 Hne2]. rewrite add_env_eq by exact Hne1. apply acc_good_upsert; assumption.
+  unfold env_third. induction es as [|e r IH]; intros acc Hnd Hn Hacc; [cbn; rewrite app_nil_r; reflexivity|].
+  cbn [fold_left filter]. rewrite r_mods_cons in Hnd. destruct (names_ok_cons e r Hn) as [Hne Hnr].
+  pose proof (Hacc e (or_introl eq_refl)) as He. unfold third_new in He |- * at 1.
+  destruct (marked (fst e)) eqn:Hm; cbn [negb andb] in *.
+  - apply IH; [exact Hnd|exact Hnr|]. intros e' He'. apply Hacc. right. exact He'.
+  - inversion Hnd as [|? ? Hx Hr]; subst. destruct (Hne eq_refl) as [Hne1 Hne2].
+    destruct (alookup (fst e) m') as [y|].
+    + rewrite add_env_eq by exact Hne1. rewrite env_upsert_app by (apply He; reflexivity).
+      rewrite IH; [|exact Hr|exact Hnr|].
+      * cbn [map]. rewrite <- app_assoc. reflexivity.
+      * intros e' He' Hnew. rewrite map_app. intros Hin. apply in_app_or in Hin. destruct Hin as [Hin|[E|[]]].
+        -- exact (Hacc e' (or_intror He') Hnew Hin).
+        -- cbn [fst] in E. apply Hx. rewrite E. apply In_r_mods; [exact He'|].
+           unfold third_new in Hnew. apply andb_true_iff in Hnew. destruct Hnew as [Hnew _]. apply negb_true_iff in Hnew. exact Hnew.
+    + apply IH; [exact Hr|exact Hnr|]. intros e' He'. apply Hacc. right. exact He'.
 Qed.
 
 Lemma gen_env_unfold es env :
@@ -821,49 +801,189 @@ Proof.
   destruct Hin as [Hin Hm]. apply negb_true_iff in Hm. tauto.
 Qed.
 
+Lemma map_flat_map {A B C} (g : B -> C) (f : A -> list B) l : map g (flat_map f l) = flat_map (fun x => map g (f x)) l.
+Proof. induction l as [|x r IH]; cbn [flat_map map]; [reflexivity|]. rewrite map_app, IH. reflexivity. Qed.
+
+Lemma flat_map_single {A} (l : list A) : flat_map (fun x => [x]) l = l.
+Proof. induction l as [|x r IH]; cbn [flat_map app]; [reflexivity|]. rewrite IH. reflexivity. Qed.
+
+Lemma filter_filter {A} (p q : A -> bool) l : filter q (filter p l) = filter (fun x => p x && q x) l.
+Proof.
+  induction l as [|x r IH]; cbn [filter]; [reflexivity|].
+  destruct (p x); cbn [andb filter]; [destruct (q x); rewrite IH; reflexivity|exact IH].
+Qed.
+
+(* what an existing entry becomes, read off the adjustment *)
+Definition env_kept (es : list (string * string)) (s : string) : list string :=
+  match kfind fst (ref_env_key s) (r_adds fst es) with
+  | Some e => [ref_env_oci e]
+  | None => if smem (ref_env_key s) (r_dels fst es) then [] else [s]
+  end.
+Lemma env_expected_eq es env :
+  env_expected es env =
+  flat_map (env_kept es) env ++ map ref_env_oci (filter (fun e => negb (smem (fst e) (map ref_env_key env))) (r_adds fst es)).
+Proof. reflexivity. Qed.
+
+Lemma rb_entry_kept es s :
+  NoDup (r_mods fst es) -> map snd (rb_entry (env_mod es []) s) = env_kept es s.
+Proof.
+  intros Hnd. unfold rb_entry, env_kept. set (k := ref_env_key s).
+  destruct (kfind fst k (r_adds fst es)) as [e|] eqn:Ha.
+  - destruct (kfind_adds_In fst k es e Ha) as [Hin [Hm Hk]].
+    pose proof (env_mod_set es [] e Hin Hm Hnd) as Hl. rewrite Hk in Hl. rewrite Hl, Hm.
+    unfold ref_env_oci. rewrite Hk. reflexivity.
+  - apply kfind_None_notin in Ha. destruct (smem k (r_dels fst es)) eqn:Hd.
+    + apply smem_In in Hd. destruct (env_mod_removed es [] k Ha Hd) as [x [Hx Hxm]]; [intros old; discriminate|].
+      rewrite Hx, Hxm. reflexivity.
+    + apply smem_false_notin in Hd. rewrite (env_mod_untouched es [] k Ha Hd). cbn [alookup].
+      destruct (snd (cut "="%char s)); reflexivity.
+Qed.
+
+(* AdjustEnv, exactly: the existing entries in their order, each set one replaced in place, each removed
+   one dropped, every other one untouched; then the new variables in the order of the adjustment *)
+Theorem gen_env_exact es env :
+  env_W3 env -> NoDup (r_mods fst es) -> names_ok es -> gen_env es env = env_expected es env.
+Proof.
+  intros HW Hnd Hn. rewrite env_expected_eq.
+  assert (Hok : m_ok (env_mod es [])) by (apply env_mod_ok; intros k' x; discriminate).
+  rewrite gen_env_unfold. destruct (env_mod es []) as [|p l] eqn:HM.
+  - (* the adjustment names no variable *)
+    assert (Ha : r_adds fst es = []).
+    { destruct (r_adds fst es) as [|e r] eqn:Hadds; [reflexivity|].
+      assert (Hin : In e (r_adds fst es)) by (rewrite Hadds; left; reflexivity).
+      unfold r_adds in Hin. apply filter_In in Hin. destruct Hin as [Hin Hm]. apply negb_true_iff in Hm.
+      pose proof (env_mod_set es [] e Hin Hm Hnd) as Hl. rewrite HM in Hl. discriminate. }
+    assert (Hd : forall k, smem k (r_dels fst es) = false).
+    { intros k. destruct (smem k (r_dels fst es)) eqn:Hd; [|reflexivity]. apply smem_In in Hd.
+      destruct (env_mod_removed es [] k) as [x [Hx _]]; [unfold r_mods; rewrite Ha; intros []|exact Hd|intros old; discriminate|].
+      rewrite HM in Hx. discriminate. }
+    rewrite Ha. cbn [filter map]. rewrite app_nil_r.
+    rewrite (flat_map_ext_In (env_kept es) (fun s => [s])); [symmetry; apply flat_map_single|].
+    intros s _. unfold env_kept. rewrite Ha, Hd. reflexivity.
+  - rewrite <- HM in *. clear HM p l. set (M := env_mod es []) in *.
+    rewrite rebuild_fst; [|exact Hok|exact HW|intros s _ []]. cbn [app].
+    rewrite third_app; [|exact Hnd|exact Hn|].
+    + rewrite map_app, map_flat_map, map_map. cbn [snd]. f_equal.
+      * apply flat_map_ext_In. intros s _. apply rb_entry_kept. exact Hnd.
+      * rewrite map_ext with (g := ref_env_oci) by reflexivity. f_equal.
+        unfold r_adds. rewrite filter_filter. apply filter_ext_in. intros e He.
+        unfold third_new. destruct (marked (fst e)) eqn:Hm; cbn [negb andb]; [reflexivity|].
+        rewrite rebuild_m. destruct (smem (fst e) (map ref_env_key env)); [reflexivity|].
+        pose proof (env_mod_set es [] e He Hm Hnd) as Hl. fold M in Hl. rewrite Hl. reflexivity.
+    + intros e He Hnew Hin. unfold third_new in Hnew. apply andb_true_iff in Hnew. destruct Hnew as [Hm Hl].
+      apply negb_true_iff in Hm. rewrite rebuild_m in Hl.
+      destruct (smem (fst e) (map ref_env_key env)) eqn:Hs; [discriminate|]. apply smem_false_notin in Hs.
+      rewrite map_flat_map in Hin. apply in_flat_map in Hin. destruct Hin as [s [Hs1 Hs2]].
+      destruct (rb_entry_names M s _ Hs2) as [E|E].
+      * destruct (Hn (fst e) (In_r_mods fst e es He Hm)) as [Hne _]. exact (Hne E).
+      * apply Hs. rewrite E. apply in_map. exact Hs1.
+Qed.
+
+(* --- the expected list read as a map --- *)
+Lemma kfind_flat_map_keyed (f : string -> list string) env k :
+  (forall s x, In x (f s) -> ref_env_key x = ref_env_key s) -> NoDup (map ref_env_key env) ->
+  kfind ref_env_key k (flat_map f env) =
+  match kfind ref_env_key k env with Some s => kfind ref_env_key k (f s) | None => None end.
+Proof.
+  intros Hf. induction env as [|s r IH]; intros Hnd; [reflexivity|].
+  cbn [map] in Hnd. inversion Hnd as [|? ? Hx Hr]; subst. cbn [flat_map kfind]. rewrite kfind_app, IH by exact Hr.
+  destruct (String.eqb_spec k (ref_env_key s)) as [->|Hne].
+  - destruct (kfind ref_env_key (ref_env_key s) (f s)); [reflexivity|].
+    assert (Hnone : kfind ref_env_key (ref_env_key s) r = None) by (apply kfind_None_notin; exact Hx).
+    rewrite Hnone. reflexivity.
+  - assert (Hnone : kfind ref_env_key k (f s) = None).
+    { apply kfind_None_notin. intros Hin. apply in_map_iff in Hin. destruct Hin as [x [Hx1 Hx2]].
+      apply Hne. rewrite <- Hx1. apply Hf. exact Hx2. }
+    rewrite Hnone. reflexivity.
+Qed.
+
+Lemma names_ok_adds es e : names_ok es -> In e (r_adds fst es) -> ref_env_key (ref_env_oci e) = fst e.
+Proof.
+  intros Hn Hin. unfold ref_env_oci. apply ref_env_key_oci. apply Hn. unfold r_mods. apply in_map. exact Hin.
+Qed.
+
+Lemma env_kept_key es s x : names_ok es -> In x (env_kept es s) -> ref_env_key x = ref_env_key s.
+Proof.
+  intros Hn. unfold env_kept. destruct (kfind fst (ref_env_key s) (r_adds fst es)) as [e|] eqn:Ha.
+  - intros [<-|[]]. apply kfind_Some_key in Ha. destruct Ha as [Hk Hin]. rewrite (names_ok_adds es e Hn Hin). exact Hk.
+  - destruct (smem _ _); [intros []|]. intros [<-|[]]. reflexivity.
+Qed.
+
+Theorem env_expected_kfind es env k :
+  NoDup (map ref_env_key env) -> names_ok es ->
+  kfind ref_env_key k (env_expected es env) =
+  match kfind fst k (r_adds fst es) with
+  | Some e => Some (ref_env_oci e)
+  | None => if smem k (r_dels fst es) then None else kfind ref_env_key k env
+  end.
+Proof.
+  intros Hnd Hn. rewrite env_expected_eq, kfind_app.
+  rewrite (kfind_flat_map_keyed (env_kept es) env k (fun s x => env_kept_key es s x Hn) Hnd).
+  rewrite (kfind_map_inj _ _ fst ref_env_key ref_env_oci (fun e => In e (r_adds fst es))
+             (fun e Hg _ => names_ok_adds es e Hn Hg)).
+  2:{ intros e He. apply filter_In in He. destruct He as [He _]. split; [exact He|].
+      unfold r_adds in He. apply filter_In in He. destruct He as [_ Hm]. apply negb_true_iff in Hm. exact Hm. }
+  rewrite (kfind_filter_key fst k (fun x => negb (smem x (map ref_env_key env)))).
+  destruct (kfind ref_env_key k env) as [s|] eqn:Hs.
+  - destruct (kfind_Some_key _ _ _ _ Hs) as [Hk Hin].
+    assert (Hmem : smem k (map ref_env_key env) = true) by (apply smem_In; rewrite <- Hk; apply in_map; exact Hin).
+    rewrite Hmem. cbn [negb]. unfold env_kept. rewrite Hk.
+    destruct (kfind fst k (r_adds fst es)) as [e|] eqn:Ha.
+    + cbn [kfind]. apply kfind_Some_key in Ha. destruct Ha as [Hke Hine].
+      rewrite (names_ok_adds es e Hn Hine), Hke, String.eqb_refl. reflexivity.
+    + destruct (smem k (r_dels fst es)); [reflexivity|]. cbn [kfind]. rewrite Hk, String.eqb_refl. reflexivity.
+  - assert (Hmem : smem k (map ref_env_key env) = false) by (apply smem_false_notin; apply kfind_None_notin; exact Hs).
+    rewrite Hmem. cbn [negb]. destruct (kfind fst k (r_adds fst es)); cbn [option_map]; [reflexivity|].
+    destruct (smem k (r_dels fst es)); reflexivity.
+Qed.
+
 (* AdjustEnv = the reference semantics, as a map from names to entries *)
 Theorem gen_env_refines es env k :
   env_W3 env -> NoDup (r_mods fst es) -> names_ok es ->
   kfind ref_env_key k (gen_env es env) = kfind ref_env_key k (apply_keyed fst ref_env_key ref_env_oci env es).
 Proof.
-  intros HW Hnd Hn.
-  (* the reference *)
+  intros HW Hnd Hn. rewrite (gen_env_exact es env HW Hnd Hn). rewrite env_expected_kfind by (try apply HW; exact Hn).
   pose proof (sem_char fst ref_env_key ref_env_oci
                 (fun e => marked (fst e) = false -> count_char "="%char (fst e) = 0)
                 (fun e Hg Hm => ref_env_key_oci (fst e) (snd e) (Hg Hm)) env es k) as Hs.
-  unfold sem in Hs. rewrite Hs; clear Hs.
-  2:{ intros e He Hm. apply Hn. unfold r_mods. apply in_map. unfold r_adds. apply filter_In. split; [exact He|rewrite Hm; reflexivity]. }
-  change (k_adds fst es) with (r_adds fst es). change (k_dels fst es) with (r_dels fst es).
-  (* the model *)
-  assert (Hok : m_ok (env_mod es [])) by (apply env_mod_ok; intros k' x; discriminate).
-  rewrite gen_env_unfold. destruct (env_mod es []) as [|p l] eqn:HM.
-  - (* nothing to do: the adjustment names no variable *)
-    destruct (kfind fst k (r_adds fst es)) as [e|] eqn:Ha.
-    + destruct (kfind_adds_In fst k es e Ha) as [Hin [Hm Hk]].
-      pose proof (env_mod_set es [] e Hin Hm Hnd) as Hl. rewrite HM in Hl. discriminate.
-    + destruct (smem k (r_dels fst es)) eqn:Hd; [|reflexivity].
-      apply kfind_None_notin in Ha. apply smem_In in Hd.
-      destruct (env_mod_removed es [] k Ha Hd) as [x [Hx _]]; [intros old; discriminate|]. rewrite HM in Hx. discriminate.
-  - rewrite <- HM in *. clear HM p l.
-    set (M := env_mod es []) in *.
-    rewrite kfind_acc_good.
-    2:{ apply third_good; [exact Hn|]. apply rebuild_good; [exact Hok|exact HW|]. intros p []. }
-    rewrite third_lookup by assumption. rewrite rebuild_m by assumption. rewrite !rebuild_acc by assumption.
-    cbn [alookup].
-    destruct (kfind fst k (r_adds fst es)) as [e|] eqn:Ha.
-    + destruct (kfind_adds_In fst k es e Ha) as [Hin [Hm Hk]].
-      pose proof (env_mod_set es [] e Hin Hm Hnd) as Hl. fold M in Hl. rewrite Hk in Hl. rewrite Hl.
-      unfold ref_env_oci. rewrite Hk.
-      destruct (smem k (map ref_env_key env)) eqn:Hin_env; [|reflexivity].
-      apply smem_In in Hin_env. destruct (kfind_In_keys ref_env_key k env Hin_env) as [s Hs]. rewrite Hk in Hm. rewrite Hs, Hm. reflexivity.
-    + apply kfind_None_notin in Ha.
-      destruct (kfind ref_env_key k env) as [s|] eqn:Hs.
-      * destruct (smem k (r_dels fst es)) eqn:Hd.
-        -- apply smem_In in Hd. destruct (env_mod_removed es [] k Ha Hd) as [x [Hx Hxm]]; [intros old; discriminate|].
-           fold M in Hx. rewrite Hx, Hxm. reflexivity.
-        -- apply smem_false_notin in Hd. pose proof (env_mod_untouched es [] k Ha Hd) as Hl. fold M in Hl.
-           rewrite Hl. reflexivity.
-      * destruct (smem k (r_dels fst es)); reflexivity.
+  unfold sem in Hs. rewrite Hs; [reflexivity|].
+  intros e He Hm. apply Hn. apply In_r_mods; assumption.
+Qed.
+
+(* the entries no entry of the adjustment names are the same entries, in the same relative order *)
+Theorem gen_env_unnamed es env :
+  env_W3 env -> NoDup (r_mods fst es) -> names_ok es ->
+  filter (env_unnamed es) (gen_env es env) = filter (env_unnamed es) env.
+Proof.
+  intros HW Hnd Hn. rewrite (gen_env_exact es env HW Hnd Hn), env_expected_eq, filter_app.
+  assert (Hnamed : forall k, In k (r_mods fst es) \/ In k (r_dels fst es) -> smem k (map (fun e => rawkey (fst e)) es) = true).
+  { intros k Hk. apply smem_In. destruct Hk as [Hk|Hk].
+    - unfold r_mods, r_adds in Hk. apply in_map_iff in Hk. destruct Hk as [e [Hk He]]. apply filter_In in He.
+      destruct He as [He Hm]. apply negb_true_iff in Hm. apply in_map_iff. exists e. split; [|exact He].
+      rewrite (rawkey_unmarked _ Hm). exact Hk.
+    - unfold r_dels in Hk. apply in_map_iff in Hk. destruct Hk as [e [Hk He]]. apply filter_In in He.
+      apply in_map_iff. exists e. tauto. }
+  assert (Hnew : filter (env_unnamed es)
+                   (map ref_env_oci (filter (fun e => negb (smem (fst e) (map ref_env_key env))) (r_adds fst es))) = []).
+  { generalize (fun e (H : In e (filter (fun e => negb (smem (fst e) (map ref_env_key env))) (r_adds fst es))) =>
+                  proj1 (proj1 (filter_In _ e _) H)).
+    generalize (filter (fun e => negb (smem (fst e) (map ref_env_key env))) (r_adds fst es)). intros l Hl.
+    induction l as [|e r IH]; [reflexivity|]. cbn [map filter].
+    assert (Hu : env_unnamed es (ref_env_oci e) = false).
+    { unfold env_unnamed. rewrite (names_ok_adds es e Hn (Hl e (or_introl eq_refl))).
+      rewrite Hnamed; [reflexivity|]. left. unfold r_mods. apply in_map. apply Hl. left. reflexivity. }
+    rewrite Hu. apply IH. intros e' He'. apply Hl. right. exact He'. }
+  rewrite Hnew, app_nil_r. clear Hnew.
+  induction env as [|s r IH]; [reflexivity|]. cbn [flat_map]. rewrite filter_app.
+  destruct (env_W3_cons s r HW) as [_ [_ HWr]]. rewrite (IH HWr). cbn [filter].
+  unfold env_kept, env_unnamed at 1 3.
+  destruct (kfind fst (ref_env_key s) (r_adds fst es)) as [e|] eqn:Ha.
+  - apply kfind_Some_key in Ha. destruct Ha as [Hk Hin]. cbn [filter].
+    unfold env_unnamed. rewrite (names_ok_adds es e Hn Hin), Hk.
+    rewrite Hnamed; [reflexivity|]. left. rewrite <- Hk. unfold r_mods. apply in_map. exact Hin.
+  - destruct (smem (ref_env_key s) (r_dels fst es)) eqn:Hd.
+    + cbn [filter app]. apply smem_In in Hd. rewrite Hnamed; [reflexivity|]. right. exact Hd.
+    + cbn [filter]. unfold env_unnamed. destruct (negb (smem (ref_env_key s) _)); reflexivity.
 Qed.
 
 Theorem ref_env_perm env es es' k :
